@@ -162,4 +162,24 @@ def tally (sc : String) (vs : List Val) (ds : List Deleg) (votes : List Vote) (b
     .ok (rescale a.1 bonded s.scBonded, a.2)
   else .panic .divZero
 
+/-! ### Specification-level quantities (used by Props/C16; not part of the code model) -/
+
+/-- Σ of the voting powers of a list of ballots -/
+def sumPower (bs : List Ballot) : Dec := bs.foldl (fun t b => t.add b.power) Dec.zero
+
+/-- the voting power that voted: own stake of every (non share-class) voter + the remaining stake of every voting
+    validator, share-class stake excluded -/
+def votedVP (sc : String) (vs : List Val) (ds : List Deleg) (votes : List Vote) : Dec :=
+  sumPower (allBallots sc vs ds votes)
+
+/-- Σ over the share-class account's delegations to TALLIED validators of shares · bonded / validatorShares (tokens) -/
+def nonVotingBonded (sc : String) (vs : List Val) (ds : List Deleg) : Dec :=
+  ds.foldl (fun t d => if d.delegator ≠ sc then t else
+    match look vs d.validator with
+    | none => t
+    | some v => t.add (power d.shares v)) Dec.zero
+
+/-- the delegation graph with the share-class account's delegations removed -/
+def withoutSC (sc : String) (ds : List Deleg) : List Deleg := ds.filter (fun d => d.delegator ≠ sc)
+
 end Sunrise.GovTally
